@@ -134,7 +134,8 @@ impl BufPtr {
     // <*mut u8>::add
     #[verifier::external_body] pub fn add(self, n: usize) -> (r: BufPtr)
         requires n <= self.room(), // [C04.fdw.ptr_add.in_bounds]
-        ensures r.addr() == self.addr() + n, r.room() == self.room() - n, r.mem() == self.mem().skip(n as int),
+        ensures r.addr() == self.addr() + n, r.room() == self.room() - n,
+                r.mem() == (if n <= self.mem().len() { self.mem().skip(n as int) } else { Seq::<u8>::empty() }),
     { unimplemented!() }
 }
 // Vec::as_mut_ptr / <[u8]>::as_mut_ptr
@@ -149,7 +150,8 @@ pub uninterp spec fn slice_base(s: &[u8]) -> int;
 // the first length elements are initialised)
 #[verifier::external_body] pub fn vx_vec_from_raw_parts(p: BufPtr, length: usize, capacity: usize) -> (r: Vec<u8>)
     requires length <= capacity, capacity <= p.room(), // [C04.fdw.from_raw_parts.in_bounds]
-    ensures r@ == (if length <= p.mem().len() { p.mem().take(length as int) } else { r@ }), r@.len() == length, spec_capacity(&r) == capacity, vec_base(&r) == p.addr(),
+             length <= p.mem().len(), // [C04.fdw.from_raw_parts.initialised]
+    ensures r@ == p.mem().take(length as int), spec_capacity(&r) == capacity, vec_base(&r) == p.addr(),
 { unimplemented!() }
 
 // ---- crate::file_buf::FileVolatileSlice as (address, length) (the view of units iobuffers / virtiofsw; KX group file_buf covers its accessors)
@@ -243,14 +245,15 @@ STD_WRITE_ALL = r'''
             r is Err ==> final(self).unchanged(old(self)) && final(dl).log == old(dl).log, // [C04.fdw.write_all.err_nothing]
             old(self).buffered && old(self).buf@.len() + data@.len() <= old(self).cap() ==> r is Ok,
     {
+        broadcast use axiom_capacity_bound;
         let mut buf = data; let ghost all = data@;
         while !buf.is_empty()
             invariant
-                buf@ == all || buf@.len() == 0,
+                buf@ == all || (buf@.len() == 0 && all.len() > 0),
                 buf@.len() == 0 && all.len() > 0 ==> self.grew_by(old(self), all.len()) && self.frame_same(old(self))
                     && (old(self).buffered ==> self.buf@ == old(self).buf@ + all && dl.log == old(dl).log)
                     && (!old(self).buffered ==> dl.log == old(dl).log.push(DevWrite { fd: old(self).fd, bytes: all })),
-                buf@ == all ==> self.unchanged(old(self)) && dl.log == old(dl).log,
+                buf@.len() == all.len() ==> self.unchanged(old(self)) && dl.log == old(dl).log,
         {
             match self.write(buf, Tracked(dl)) {
                 Ok(0) => { return Err(io::Error::new(io::ErrorKind::WriteZero, "failed to write whole buffer")); }
@@ -259,6 +262,7 @@ STD_WRITE_ALL = r'''
                 Err(e) => { return Err(e); }
             }
         }
+        proof { assert(old(self).buf@.take(old(self).buf@.len() as int) =~= old(self).buf@); assert(all.len() == 0 ==> old(self).buf@ + all =~= old(self).buf@); }
         Ok(())
     }
 '''
@@ -441,7 +445,7 @@ def writer_fns(root):
                                'r is Ok ==> final(self).grew_by(old(self), count as nat) // [C04.fdw.write_all_from.amount]',
                                'final(self).buf@.len() >= old(self).buf@.len() && final(self).buf@.take(old(self).buf@.len() as int) == old(self).buf@ // [C04.fdw.write_all_from.order]'],
                       attrs=['#[verifier::exec_allows_no_decreases_clause]', '#[verifier::loop_isolation(false)]'],
-                      splices=[('while count > 0 {', 'replace', '''let ghost count0 = count;
+                      splices=[('while count > 0 {', 'replace', '''let ghost count0 = count; proof { assert(self.buf@.take(self.buf@.len() as int) =~= self.buf@); }
         while count > 0
             invariant
                 count <= count0, self.frame_same(old(self)), self.buffered, dl.log == old(dl).log,
